@@ -230,7 +230,7 @@ CHECKS = {
             "IndexSet<Ccy> insert / get_index_of / index, Array2::from_shape_vec / into_iter, Vec::clone_from, Iterator fold / enumerate / all / any: shim contracts",
         ],
         "uncovered": [
-            "sensitivity VALUES (+-cross/quote on the path, 0 elsewhere, second order): follow from C01/C02 operator contracts applied along the fill-in but are not composed into one theorem; explored by the bounded probe (probe_fx: plain and own-variable quotes, first and second order)",
+            "sensitivity VALUES at FIRST order are proved (the fill-in extracted a second time at T := Dual with an additive-potential invariant: grad(cross i->j)(variable of quote k) * quote_k == (h_j - h_i) * cross, for every integer labelling h that steps by one across quote k and is level across the other quotes; lemma_seed_elastic, lemma_fx_sensitivity); that a tree of quotes HAS such a labelling (the two sides of the tree without edge k) is textbook and not machine-checked, the seeding function is read at T := Dual from its contract at the abstract ring, and termination of the Dual copy is not re-proved; SECOND-order sensitivities: bounded probe only",
             "the characters of the name fx_xxxyyy (formatting macro): bounded probe only",
             "Python wrappers (fx_py.rs)",
         ],
